@@ -409,6 +409,10 @@ pub enum Intrusion {
     /// a radio event with a frame nobody can accept (random bytes)
     StrayRx(Vec<u8>),
     StrayNothing,
+    /// a timer that fires while the frame is still on the air (the window timer of an earlier
+    /// transaction, say); only delivered while the radio transmits - at any other moment of a
+    /// transaction a timeout is the event the state machine is waiting for
+    StrayTimeout,
     /// the application reads the session in the middle of the transaction (to persist it)
     SessionSnapshot,
 }
@@ -827,7 +831,12 @@ pub fn nb_transact<const PW: u8, const G: i8, const N: usize, const D: usize>(d:
         let running = matches!(resp, Response::TimeoutRequest(_) | Response::UplinkSending(_) | Response::JoinRequestSending);
         let sending = matches!(resp, Response::UplinkSending(_) | Response::JoinRequestSending);
         for (at, k) in script.intrude.iter() {
-            if *at != steps || !running || (sending && matches!(k, Intrusion::StrayRx(_) | Intrusion::StrayNothing)) {
+            if matches!(k, Intrusion::StrayTimeout) {
+                // (at whatever step the transmission is still running)
+                if !sending || *at > steps + 1 {
+                    continue;
+                }
+            } else if *at != steps || !running || (sending && matches!(k, Intrusion::StrayRx(_) | Intrusion::StrayNothing)) {
                 continue;
             }
             if matches!(k, Intrusion::SessionSnapshot) {
@@ -847,6 +856,7 @@ pub fn nb_transact<const PW: u8, const G: i8, const N: usize, const D: usize>(d:
                 Intrusion::Join => d.join(jm),
                 Intrusion::StrayRx(b) => d.handle_event(Event::RadioEvent(nb_device::radio::Event::Phy(NbPhyEvent::RxDone(b.clone())))),
                 Intrusion::StrayNothing => d.handle_event(Event::RadioEvent(nb_device::radio::Event::Phy(NbPhyEvent::Nothing))),
+                Intrusion::StrayTimeout => d.handle_event(Event::TimeoutFired),
             };
             match r {
                 Ok(Response::NoUpdate) => notes.push(format!("intr@{}:NoUpdate", steps)),
